@@ -1,10 +1,12 @@
 import SygmaModel.Drv.C07
+import SygmaModel.Drv.C11
 import SygmaModel.Drv.C14
 namespace Sygma.Drv
 
 def dispatch (prop op : String) (args : List String) (impl : String) : Option Verdict :=
   match prop with
   | "C07" => C07.handle op args impl
+  | "C11" => C11.handle op args impl
   | "C14" => C14.handle op args impl
   | _ => none
 
